@@ -20,6 +20,7 @@ from __future__ import print_function
 import collections
 import copy
 import enum
+import numbers
 from . import utils
 import tensorflow as tf
 
@@ -950,7 +951,8 @@ def verify_hyperparameters(input_keypoints=None,
                        " k > 1. It is: " + str(weights_shape))
 
   if lengths is not None and not tf.is_tensor(lengths):
-    if not all(length > 0 for length in lengths):
+    if not all(
+        isinstance(length, numbers.Real) and length > 0 for length in lengths):
       raise ValueError("Lengths of pieces must be positive. They are: %s" %
                        (lengths,))
 
